@@ -16,14 +16,14 @@ from collections import OrderedDict as odict
 from .refmatch import ref_match
 
 
-def acl_rule(toks, children=(), glob=False, cd=None):
-    return {"toks": list(toks), "children": list(children), "glob": glob, "cd": cd}
+def acl_rule(toks, children=(), glob=False, cd=None, icase=False):
+    return {"toks": list(toks), "children": list(children), "glob": glob, "cd": cd, "icase": icase}
 
 
 def acl_lines(rules, ind=0):
     out = []
     for r in rules:
-        t = " " * ind + " ".join(r["toks"])
+        t = " " * ind + ("(?i)" if r.get("icase") else "") + " ".join(r["toks"])
         if r.get("glob"):
             t += " %global"
         if r.get("cd") is not None:
@@ -67,8 +67,8 @@ class ACtx:
     def cover(self, row):
         if self.norm:
             row = self.norm(row)
-        m = [(g, r) for (g, r) in self.local if ref_match(r["toks"], row) is not None]
-        gm = [(g, r) for (g, r) in self.globs if ref_match(r["toks"], row) is not None]
+        m = [(g, r) for (g, r) in self.local if ref_match(r["toks"], row, bool(r.get("icase"))) is not None]
+        gm = [(g, r) for (g, r) in self.globs if ref_match(r["toks"], row, bool(r.get("icase"))) is not None]
         return m, gm
 
     def covered(self, row):
